@@ -131,7 +131,18 @@ func EvalNoClear(env *zygo.Zlisp, src string) (res Res) {
 
 // Canon renders a value for comparison with the reference evaluator:
 // functions print as <fn>, everything else as the library prints it.
-func Canon(v zygo.Sexp) string {
+func Canon(v zygo.Sexp) string { return canon(v, map[zygo.Sexp]bool{}) }
+
+func canon(v zygo.Sexp, busy map[zygo.Sexp]bool) string {
+	Canon := func(x zygo.Sexp) string { return canon(x, busy) }
+	switch v.(type) {
+	case *zygo.SexpArray, *zygo.SexpPair:
+		if busy[v] {
+			return "[...]" // a container holding itself
+		}
+		busy[v] = true
+		defer delete(busy, v)
+	}
 	switch x := v.(type) {
 	case nil:
 		return "GONIL"
